@@ -1,11 +1,51 @@
-From Coq Require Import List NArith Bool.
-From NV Require Import Gen.Fat.
-Open Scope N_scope.
-Theorem C14_source_facts :
-  (fat12_min_valid, fat12_max_valid, fat12_end_mark) = (2, 4079, 4095) /\
-  (fat16_min_valid, fat16_max_valid, fat16_end_mark) = (2, 65519, 65535) /\
-  (fat32_min_valid, fat32_max_valid, fat32_end_mark) = (2, 268435439, 268435455) /\
-  (fat12_threshold, fat16_threshold) = (4085, 65525) /\ fs_default_atime = false /\
-  de_sizeof = 32 /\ lfn_sizeof = 32 /\ bpb_sizeof = 36 /\ lfn_checksum_standard = true.
-Proof. repeat split; reflexivity. Qed.
-Print Assumptions C14_source_facts.
+(* C14 -- All image mutations happen under the exclusive lock; locks always balance.
+   Proved over the lock / mutation skeleton of fs.py and path.py that the translator regenerates
+   from the source on every run (Gen/FatSkel.v); semantics and soundness in Fat/Skel*.v. *)
+From Coq Require Import List Arith Bool.
+From NV Require Import Fat.SkelDefs Fat.SkelProofs Gen.FatSkel Fat.SkelTheorems.
+Import ListNotations.
+
+(* the executable check on the current source *)
+Theorem C14_skeleton_check : check14 = true.
+Proof. exact check14_holds. Qed.
+Print Assumptions C14_skeleton_check.
+
+(* For every public function of the two modules and EVERY execution of its body -- statements in
+   any order, repeated any number of times, interrupted anywhere by return or exception, calls to
+   any depth: each store into the image happens while the thread holds the write side (directly
+   or through mark_dirty), and when the execution ends the thread holds neither side. *)
+Theorem C14_pokes_under_write_and_balanced : forall f body t,
+  In f entries_all -> nth_error skeleton f = Some body -> exec skeleton all_on f body t ->
+  pokes_ok is_w no_exempt 0 [] t = true /\
+  final_depth is_w 0 t = 0 /\ final_depth (fun l => negb (is_w l)) 0 t = 0.
+Proof. exact skel_pokes_under_write. Qed.
+Print Assumptions C14_pokes_under_write_and_balanced.
+
+(* the soundness theorem itself, for any skeleton and any summary that the check accepts *)
+Theorem C14_check_sound : forall prog env sel exempt need,
+  (forall f body, nth_error prog f = Some body -> ok_fn need sel env exempt f body = true) ->
+  forall f body t, nth_error prog f = Some body -> need f = false -> exec prog env f body t ->
+  pokes_ok sel exempt 0 [] t = true.
+Proof. exact entry_safe. Qed.
+Print Assumptions C14_check_sound.
+
+Theorem C14_locks_balanced : forall prog env sel fi items t,
+  exec prog env fi items t -> final_depth sel 0 t = 0.
+Proof. exact locks_balanced. Qed.
+Print Assumptions C14_locks_balanced.
+
+Example C14_nonvacuous :
+  (* a store outside any with-block is rejected; the same store under lock.write is accepted *)
+  ok_prog_from (fun _ => false) is_w all_on no_exempt 0 [[SPoke 0]] = false /\
+  ok_prog_from (fun _ => false) is_w all_on no_exempt 0 [[SWith LW [SPoke 0]]] = true /\
+  ok_prog_from (fun _ => false) is_w all_on no_exempt 0 [[SWith LR [SCall [1]]]; [SPoke 0]] = false /\
+  exec [[SWith LW [SPoke 0]]] all_on 0 [SWith LW [SPoke 0]] [EAcq LW; EPoke 0; ERel LW] /\
+  (1 < List.length entries_all).
+Proof.
+  repeat split; try reflexivity.
+  - change [EAcq LW; EPoke 0; ERel LW] with ((EAcq LW :: [EPoke 0] ++ [ERel LW]) ++ []).
+    eapply ex_pick; [left; reflexivity| |apply ex_stop].
+    apply ex_with. change [EPoke 0] with ([EPoke 0] ++ []).
+    eapply ex_pick; [left; reflexivity|apply ex_poke|apply ex_stop].
+  - vm_compute. repeat constructor.
+Qed.
